@@ -87,6 +87,7 @@ type RLLine struct {
 	Nb   int             `json:"nb"`  // blocks of A in this step
 	Pk   *RLPkt          `json:"pk,omitempty"`
 	Err  string          `json:"err,omitempty"`
+	Xi   string          `json:"xi"` // XImport: "same" if the re-export of every module equals its export, else the modules that differ
 	St   RLState         `json:"st"`
 }
 
@@ -102,13 +103,14 @@ type RLWorld struct {
 	realV string
 	nOnB  string // voucher of N on B
 	out   map[string]channeltypes.Packet // "ch/seq" -> packet sent by A
+	abs   map[string]RLPkt               // "dir/ch/seq" -> abstract packet as reported when it was created
 	fwd   map[int64]channeltypes.Packet  // inbound seq -> packet forwarded by A over AC
 	sentH map[string]int64               // height of A at which the packet was committed
 }
 
 func NewRLWorld(t *testing.T) *RLWorld {
 	w := &RLWorld{World: NewWorld(t, []string{"A", "B", "C"}, []string{"AB", "AC"}, rlTick),
-		out: map[string]channeltypes.Packet{}, fwd: map[int64]channeltypes.Packet{}, sentH: map[string]int64{}}
+		out: map[string]channeltypes.Packet{}, fwd: map[int64]channeltypes.Packet{}, sentH: map[string]int64{}, abs: map[string]RLPkt{}}
 	ab := w.links["AB"]
 	w.mintTo("A", w.user("A"), realN, supplyN)
 	w.mintTo("B", w.user("B"), realP, 1000000)
@@ -205,7 +207,9 @@ func (w *RLWorld) Exec(a RLAction) (line RLLine) {
 		key := fmt.Sprintf("%s/%d", a.Ch, ps[0].Sequence)
 		w.out[key] = ps[0]
 		w.sentH[key] = A.App.LastBlockHeight()
-		return RLLine{Res: "ok", Pk: &RLPkt{Dir: "out", Ch: a.Ch, Seq: int64(ps[0].Sequence), D: a.D, Amt: a.Amt, Fate: a.Fate}}
+		pk := RLPkt{Dir: "out", Ch: a.Ch, Seq: int64(ps[0].Sequence), D: a.D, Amt: a.Amt, Fate: a.Fate}
+		w.abs["out/"+key] = pk
+		return RLLine{Res: "ok", Pk: &pk}
 
 	case "Recv":
 		ab := w.links["AB"]
@@ -248,13 +252,14 @@ func (w *RLWorld) Exec(a RLAction) (line RLLine) {
 			w.fwd[int64(p.Sequence)] = f[0]
 			w.sentH[fmt.Sprintf("fwd/%d", p.Sequence)] = A.App.LastBlockHeight()
 			pk.Fw = int64(f[0].Sequence)
+			w.abs[fmt.Sprintf("in/AB/%d", p.Sequence)] = *pk
 		}
 		return RLLine{Res: "ok", Ack: ackClass(writtenAck(r2.Events)), Pk: pk}
 
 	case "Ack", "Timeout":
 		key := fmt.Sprintf("%s/%d", a.Pkt.Ch, a.Pkt.Seq)
 		p, ok := w.out[key]
-		if !ok || a.Pkt.Dir != "out" {
+		if !ok || a.Pkt.Dir != "out" || w.abs["out/"+key] != *a.Pkt {
 			w.blockAt("A", w.finalTime())
 			return RLLine{Res: "err", Err: "unknown packet"}
 		}
@@ -262,12 +267,16 @@ func (w *RLWorld) Exec(a RLAction) (line RLLine) {
 
 	case "Resolve":
 		f, ok := w.fwd[a.Pkt.Seq]
-		if !ok || a.Pkt.Dir != "in" {
+		if !ok || a.Pkt.Dir != "in" || w.abs[fmt.Sprintf("in/AB/%d", a.Pkt.Seq)] != *a.Pkt {
 			w.blockAt("A", w.finalTime())
 			return RLLine{Res: "err", Err: "unknown packet"}
 		}
 		line := w.finish(f, w.sentH[fmt.Sprintf("fwd/%d", a.Pkt.Seq)], a.Pkt.Fate == "fto")
 		return line
+
+	case "XImport":
+		res, xi, errStr := w.exportImport("A")
+		return RLLine{Res: res, Xi: xi, Err: errStr}
 
 	case "Add", "Update", "Remove", "Reset":
 		l := w.links[a.Ch]
